@@ -25,6 +25,13 @@ import (
 //	settle  sleep N milliseconds
 //	quiesce wait until every API call issued so far has returned, or the deadline
 //	drain   wait until every reading, uncancelled subscriber got every value it must get
+//	park    from now on the forwarder with id H is held at the hook broadcaster.forwarder.holding
+//	        (it has taken a value from its buffer and not yet entered the select that sends it)
+//	unpark  release it
+//	waitret wait up to N ms for the pending calls (no verdict: used while the harness itself holds a
+//	        forwarder)
+//	rblock  start a goroutine doing one blocking receive (timeout N ms) on the channel of the
+//	        never-reading subscriber H
 type Step struct {
 	Op    string `json:"op"`
 	H     int    `json:"h,omitempty"`
@@ -48,6 +55,10 @@ type Ev struct {
 	K string `json:"k"` // bcall bacq bret scall sret cancel recv ccall cret
 	A int    `json:"a"` // ticket / tag
 	V int    `json:"v"` // value (bcall, recv)
+	// Lo > 0 (only for a receive done by a *blocking* reader, step rblock): the receive began when
+	// the trace had Lo events, i.e. it happened somewhere between position Lo and the position at
+	// which it was logged.
+	Lo int `json:"lo,omitempty"`
 }
 
 func (e Ev) Line() string {
@@ -107,6 +118,8 @@ type world struct {
 	wg       sync.WaitGroup
 	panics   []string
 	cancels  []context.CancelFunc
+	parkMu   sync.Mutex
+	park     map[uint64]chan struct{}
 }
 
 // Outcome of executing a scenario against the real code.
@@ -254,6 +267,16 @@ func Execute(sc Scenario, deadline time.Duration) Outcome {
 			return
 		}
 		switch name {
+		case "broadcaster.forwarder.holding":
+			w.parkMu.Lock()
+			ch := w.park[args[1].(uint64)]
+			w.parkMu.Unlock()
+			if ch != nil {
+				select {
+				case <-ch:
+				case <-w.stop:
+				}
+			}
 		case "broadcaster.broadcast.locked":
 			// Broadcast holds the lock: the position of this event is the lock order
 			w.mu.Lock()
@@ -388,6 +411,45 @@ func Execute(sc Scenario, deadline time.Duration) Outcome {
 					w.mu.Unlock()
 					close(c.done)
 				}()
+			}
+		case "park":
+			w.parkMu.Lock()
+			if w.park == nil {
+				w.park = map[uint64]chan struct{}{}
+			}
+			w.park[uint64(st.H)] = make(chan struct{})
+			w.parkMu.Unlock()
+		case "unpark":
+			w.parkMu.Lock()
+			if ch := w.park[uint64(st.H)]; ch != nil {
+				close(ch)
+				delete(w.park, uint64(st.H))
+			}
+			w.parkMu.Unlock()
+		case "waitret":
+			t0 := time.Now()
+			for len(w.pending()) > 0 && time.Since(t0) < time.Duration(st.N)*time.Millisecond {
+				time.Sleep(200 * time.Microsecond)
+			}
+		case "rblock":
+			if st.H < len(w.subs) {
+				s := w.subs[st.H]
+				w.mu.Lock()
+				lo := len(w.trace)
+				w.mu.Unlock()
+				w.wg.Add(1)
+				go func() {
+					defer w.wg.Done()
+					select {
+					case v := <-s.ch:
+						w.mu.Lock()
+						w.log(Ev{K: "recv", A: s.tag, V: v, Lo: lo})
+						w.mu.Unlock()
+					case <-time.After(time.Duration(st.N) * time.Millisecond):
+					case <-w.stop:
+					}
+				}()
+				time.Sleep(time.Millisecond) // let it block in the receive
 			}
 		case "settle":
 			time.Sleep(time.Duration(st.N) * time.Millisecond)
